@@ -78,7 +78,7 @@ def spec_text(modules):
 # ------------------------------------------------------------------------------------------ TLC
 
 def tlc(module, cfg_text, files=None, args=(), workers=8, heap="8g", timeout=3600, tag="tlc",
-        cache=True, key_extra="", keep_out=True, expect_ok=True, env_opts=(), post=None, pre_dirs=()):
+        cache=True, key_extra="", keep_out=True, expect_ok=True, env_opts=(), post=None, pre_dirs=(), _retry=False):
     """Runs TLC on spec/<module>.tla with the given cfg text. `files` maps file names (created in
     the run directory) to their content. Returns the artefact directory, which contains
     out.txt.gz (full TLC output) and stats.json. Artefacts depend only on /verif, never on /repo,
@@ -114,6 +114,12 @@ def tlc(module, cfg_text, files=None, args=(), workers=8, heap="8g", timeout=360
                 p = subprocess.run(cmd, cwd=run, stdout=fh, stderr=subprocess.STDOUT, timeout=timeout)
                 rc = p.returncode
             except subprocess.TimeoutExpired:
+                # a small job that ran out of time on a stalled machine gets one more try with three times the time
+                if timeout <= 900 and not _retry:
+                    shutil.rmtree(run, ignore_errors=True)
+                    return tlc(module, cfg_text, files=files, args=args, workers=workers, heap=heap, timeout=3 * timeout, tag=tag, cache=cache,
+                               key_extra=key_extra, keep_out=keep_out, expect_ok=expect_ok, env_opts=env_opts, post=post, pre_dirs=pre_dirs,
+                               _retry=True)
                 raise Inconclusive("TLC timed out after %ds (%s)" % (timeout, tag))
         wall = time.time() - t0
         stats = {"module": module, "wall_s": round(wall, 1), "rc": rc, "args": list(map(str, args)),
